@@ -79,3 +79,24 @@ Proof.
   unfold memb in Hm. destruct (in_dec dcfg_dec (dinit owner thieves) _) as [Hin|]; [|discriminate].
   rewrite forallb_forall in Hg. apply Hg. eapply closed_sound; eauto.
 Qed.
+
+(* ---------- the configurations explored exhaustively ---------- *)
+(* good: no task is handed out twice (owner pop vs thief steal vs a second thief), only spawned tasks are handed out, and
+   when all threads have finished every spawned task was handed out exactly once or is still in [head, tail) *)
+Definition C_last_task := ([(1, 1); (2, 0)], [1%nat]).                                   (* owner and thief race for the only task *)
+Definition C_two_tasks := ([(1, 1); (1, 2); (2, 0); (2, 0)], [2%nat]).
+Definition C_reset_republish := ([(1, 1); (2, 0); (1, 2); (2, 0)], [2%nat]).             (* pool emptied, reset, published again *)
+Definition C_two_thieves := ([(1, 1); (1, 2); (2, 0)], [1%nat; 1%nat]).                  (* thieves contend for the pool lock *)
+Definition C_three_tasks := ([(1, 1); (1, 2); (1, 3); (2, 0); (2, 0); (2, 0)], [2%nat]).
+(* isolation: the owner waits in region 1, skips the foreign task 201 lying above its own task 101 at the head of the deque,
+   takes 101 as the last task (pool reset) and re-publishes only the skipped one *)
+Definition C_isolation_last := ([(1, 101); (1, 201); (2, 1); (2, 0)], [1%nat]).
+(* isolation: the matching task is in the middle: a hole is made and the tail goes back above the skipped task *)
+Definition C_isolation_hole := ([(1, 201); (1, 101); (1, 202); (2, 1); (2, 0); (2, 0)], [2%nat]).
+
+Definition deque_configs := [C_last_task; C_two_tasks; C_reset_republish; C_two_thieves; C_three_tasks; C_isolation_last; C_isolation_hole].
+
+(* evaluated once when this file is compiled (about a minute) *)
+Lemma deque_configs_explored : forallb (fun cfg => explore (fst cfg) (snd cfg) 60000) deque_configs = true.
+Proof. vm_compute. reflexivity. Qed.
+
